@@ -27,6 +27,7 @@ from pdfminer.pdftypes import PDFStream  # noqa: E402
 # ------------------------------------------------------------------------------------------------ alphabet
 PLAIN, LT, GT, AMP, QUOT, APOS, CTRL, NONASCII, ASTRAL = range(1, 10)
 SLASH, EQ, SP, LF, SEMI, QM, FF, BOM, HASH = range(10, 19)
+PLUS, TILDE, SI, SO = 19, 98, 96, 97
 GARBAGE = 99
 WORDS = {20: "pages", 21: "page", 22: "textbox", 23: "textline", 24: "text", 25: "figure", 26: "image", 27: "line",
          28: "rect", 29: "curve", 30: "layout", 31: "textgroup",
@@ -35,6 +36,7 @@ WORDS = {20: "pages", 21: "page", 22: "textbox", 23: "textline", 24: "text", 25:
          56: "xml", 60: "lt", 61: "gt", 62: "amp", 63: "quot", 64: "x27", 65: "vertical", 66: "1.0", 68: ".bmp"}
 SINGLE = {LT: "<", GT: ">", AMP: "&", QUOT: '"', APOS: "'", SLASH: "/", EQ: "=", SP: " ", LF: "\n", SEMI: ";", QM: "?",
           FF: "\f", BOM: "﻿", HASH: "#"}
+SINGLE.update({PLUS: "+", TILDE: "~"})
 # several concrete members per class (the replay also checks that class members are treated alike)
 REPS = [{PLAIN: "a", CTRL: "\x01", NONASCII: "\xe9", ASTRAL: "\U0001F600"},
         {PLAIN: "Z", CTRL: "\x1f", NONASCII: "中", ASTRAL: "\U0001D11E"},
@@ -49,9 +51,10 @@ TEXTBOXES = {"textboxh", "textboxv"}
 ELEM = {"page": E_PAGE, "textboxh": E_TEXTBOX, "textboxv": E_TEXTBOX, "textline": E_TEXTLINE, "char": E_TEXT, "anno": E_TEXT,
         "figure": E_FIGURE, "image": E_IMAGE, "line": E_LINE, "rect": E_RECT, "curve": E_CURVE, "layout": E_LAYOUT,
         "textgroup": E_TEXTGROUP, "boxref": E_TEXTBOX}
-K_UTF8, K_UTF16, K_LATIN1 = 1, 2, 3
-CODEC = {K_UTF8: "utf-8", K_UTF16: "utf-16", K_LATIN1: "latin-1"}
-ALLDEVS = ["FigureNameRaw", "TextSinkUtf8", "BomPerWrite"]
+K_UTF8, K_UTF16, K_LATIN1, K_UTF7, K_HZ, K_ISO2022 = 1, 2, 3, 4, 5, 6
+CODEC = {K_UTF8: "utf-8", K_UTF16: "utf-16", K_LATIN1: "latin-1", K_UTF7: "utf-7", K_HZ: "hz", K_ISO2022: "iso2022_jp"}
+ESCAPE_CHAR = {K_UTF7: PLUS, K_HZ: TILDE}
+ALLDEVS = ["FigureNameRaw", "TextSinkUtf8", "BomPerWrite", "AsciiBypass"]
 # [\x00-\x08\x0b-\x0c\x0e-\x1f]: every C0 control but TAB LF CR - exactly what XML 1.0 cannot carry
 CONTROL_CHARS = "".join(chr(c) for c in list(range(0, 9)) + [11, 12] + list(range(14, 32)))
 
@@ -222,7 +225,7 @@ def model_chars(T, conv, strip, imgw, dev):
 
 
 def model_units(T, conv, strip, imgw, dev, e):
-    """-> [(character, codec it was encoded with)]  (TLC's unit c + 1000 * e)"""
+    """-> [(character, codec it was encoded with)]  (TLC's unit c + 1000 * e); shifting codecs: see model_units_shift"""
     used = K_UTF8 if (conv == "text" and "TextSinkUtf8" in dev) else e
     out = []
     first = True
@@ -232,6 +235,36 @@ def model_units(T, conv, strip, imgw, dev, e):
         out += [(c, used) for c in b]
         first = False
     return out
+
+
+def model_units_shift(T, conv, strip, imgw, dev, e):
+    """the sink of a shifting codec (utf-7, hz, iso2022_jp) as TLC's integers c + 1000*e + 100000*m (EncShift / ShiftCall)"""
+    used = K_UTF8 if (conv == "text" and "TextSinkUtf8" in dev) else e
+    out = []
+    sh = False
+    for _, b in write_pieces(T, conv, strip, imgw, dev):
+        if used != e or ("AsciiBypass" in dev and all(c not in (NONASCII, ASTRAL, BOM, GARBAGE) for c in b)):
+            out += [c + 1000 * used for c in b]
+            continue
+        for c in b:
+            sh2 = c in (NONASCII, ASTRAL)
+            if sh2 and not sh:
+                out.append(SI + 1000 * e)
+            elif sh and not sh2:
+                out.append(SO + 1000 * e)
+            out.append(c + 1000 * e + (200000 if sh2 else 100000 if c == ESCAPE_CHAR.get(e) else 0))
+            sh = sh2
+    return out
+
+
+def reference_bytes(T, conv, strip, imgw, con, codec, errors):
+    """the bytes a standard incremental encoder of `codec` produces for the model's sequence of writes (intended design)"""
+    import codecs as _c
+    encoder = _c.getincrementalencoder(codec)(errors)
+    out = bytearray()
+    for _, b in write_pieces(T, conv, strip, imgw, set()):
+        out += encoder.encode(con.text(b))
+    return bytes(out)
 
 
 def ev(e, n, v=()):
